@@ -54,6 +54,7 @@ def run(ck, P):
                         # the value a local holds at the test itself (`elem = q->head; … if (q->tail == elem)`), even if the field it
                         # was read from is re-assigned later
                         expanded.add(rules.Expander(f, stable=False).at(anchor, blk.term["cond"]))
+                        expanded.add(rules.Expander(f, stable=False).at(ev, blk.term["cond"]))      # (the local may be defined by the block's last event)
             for c in null_arms:
                 conds = set(expanded)
                 if c is not None:
@@ -194,9 +195,22 @@ def run(ck, P):
                 det = "destructor receives '%s', freed node is %s" % (arg, freed)
             ck.ob("C12.2-DTOR", f.site("dtor target"), ok, det or "no destructor/free pair found")
 
-    ck.rule("C12.5-ITR-REMOVED", "R-GUARD: queue/stack iterator remove/get/set refuse once the current element was removed through the iterator", floor=6)
+    ck.rule("C12.5-ITR-REMOVED", "R-GUARD: queue/stack iterator remove/get/set refuse once the current element was removed through the iterator; the step functions refuse only an invalid iterator", floor=6)
     itr_removed_guards(ck, P, X, "C12.5-ITR-REMOVED", Q, "m_queue")
     itr_removed_guards(ck, P, X, "C12.5-ITR-REMOVED", ST, "m_stack")
+    # the step is total: it refuses an invalid iterator and nothing else — at the end of the container (also one emptied through the
+    # iterator) it must get as far as releasing the iterator and clearing the caller's pointer, or a foreach loop never ends
+    for (unit_, pre_) in ((Q, "m_queue"), (ST, "m_stack"), (L, "m_list")):
+        f = P.fn(pre_ + "_itr_next", unit_)
+        ck.analysed(f)
+        pn_ = f.params[0]["name"]
+        extra = [(a_, p_, g_.retval, g_.line) for g_ in rules.bailouts(f) if isinstance(g_.retval, int) and g_.retval < 0
+                 for (a_, p_) in g_.cont_atoms if not re.match(r"^\*?%s$" % re.escape(pn_), a_)
+                 and not re.match(r"^[\w>.*\-\[\]&]+$", a_)]
+        ck.ob("C12.5-ITR-REMOVED", f.site("step refuses only an invalid iterator"), not extra,
+              "%s_itr_next has no refusal beyond the iterator's own validity" % pre_ if not extra else
+              "%s_itr_next returns %d unless %s%s (line %d): when that fails at the end of the walk the iterator is neither released nor set to NULL — "
+              "m_itr_foreach over a container emptied through the iterator never terminates" % (pre_, extra[0][2], "" if extra[0][1] else "!", extra[0][0], extra[0][3]))
 
     # ------------------------------------------------------------------ 3. order primitives
     ck.rule("C12.3-ORDER", "R-SHAPE: enqueue links the new node behind tail and makes it the tail, dequeue/peek take from head and "
@@ -277,7 +291,16 @@ def run(ck, P):
         f = P.fn(n, L)
         loops_ = [(t_, h_, f.natural_loop(t_, h_)) for (t_, h_) in f.back_edges()]
         walks = [l_ for l_ in loops_ if any(ev.kind == "assign" and S(ev.rhs).endswith("->next") for b_ in l_[2] for ev in f.blocks[b_].events)]
-        cmpc = [e for e in f.calls() if e.callee is None and S(e.e["fn"]).endswith("->comp")]
+        pd_ = rules.pure_local_defs(f)
+
+        def _through(fn_expr, pd_=pd_):
+            # the comparator may be called through a local that caches l->comp
+            s_ = S(fn_expr)
+            x_ = strip(fn_expr)
+            if x_ is not None and x_.get("k") == "var" and x_.get("name") in pd_:
+                s_ = S(pd_[x_["name"]])
+            return s_
+        cmpc = [e for e in f.calls() if e.callee is None and _through(e.e["fn"]).endswith("->comp")]
         idt = [b_.id for b_ in f.blocks.values() if b_.term and b_.term.get("cond") is not None and
                re.search(r"->userptr == %s\b|\b%s == \S*->userptr" % (f.params[1]["name"], f.params[1]["name"]), S(b_.term["cond"]))]
         ok1 = len(walks) == 1 and bool(cmpc) and bool(idt) and all(e.block.id in walks[0][2] for e in cmpc) and all(b_ in walks[0][2] for b_ in idt)
@@ -291,7 +314,13 @@ def run(ck, P):
         for b_ in fn.blocks.values():
             if b_.term and b_.term.get("cond") is not None and b_.id in fn.in_loop_blocks():
                 c_ = S(b_.term["cond"])
+                for n_, d_ in rules.pure_local_defs(fn).items():        # a local caching l->comp
+                    if lm._mentions(c_, n_) and S(d_).endswith("->comp"):
+                        c_ = rules._subst(c_, n_, S(d_))
+                c_ = c_.replace("(l->comp)(", "l->comp(")
                 if "->userptr" in c_ or "->comp" in c_:
+                    # the node is named however the walk names it (`*tmp`, `cur`): only what is tested of it matters
+                    c_ = re.sub(r"[*\w]+->userptr", "NODE->userptr", c_)
                     out.add(re.sub(r"\b%s\b" % re.escape(fn.params[1]["name"]), "KEY", c_))
         return out
     tf, tr = _tests(P.fn("m_list_find", L)), _tests(P.fn("m_list_remove", L))
